@@ -590,7 +590,7 @@ def _paths(e):
         for s in e.get("stmts", []):
             cur = _seq(cur, s)
             # the value of a statement is discarded
-            cur = [Path(p.trace, None, p.exit) for p in cur]
+            cur = [Path(p.trace, None if p.exit == "value" else p.value, p.exit) for p in cur]
         if "expr" in e:
             cur = _seq(cur, e["expr"])
         return cur
